@@ -375,9 +375,8 @@ class Hostile(Suite):
                         script.insert(k + 1, {"t": "STAT", "stat": st})
                     elif m == 6:
                         # DATA for an id that can never be requested (a directory's index / beyond the sequence)
-                        dirs = [i for i, x in enumerate(script) if x["t"] == "STAT" and x["stat"]["mode"] & (1 << 31)]
-                        ident = rng.choice(dirs) if dirs and rng.random() < 0.5 else len(script) + 5
-                        script.append({"t": "DATA", "id": ident, "n": rng.choice([0, 10])})
+                        # (the id is filled in after all mutations: the STAT index of a directory, or one beyond the sequence)
+                        script.append({"t": "DATA", "id": None, "n": rng.choice([0, 10]), "want": rng.choice(["dir", "beyond"])})
                     elif m == 7:
                         script.insert(k, {"t": "ERR"})
                     elif m == 8:
@@ -386,6 +385,12 @@ class Hostile(Suite):
                         script.insert(k + 1, {"t": "STAT", "stat": st})
                     if not script:
                         break
+            stat_idx = [x for x in script if x["t"] == "STAT" and x.get("stat")]
+            dir_ids = [i for i, x in enumerate(stat_idx) if x["stat"]["mode"] & (1 << 31)]
+            for x in script:
+                if x["t"] == "DATA" and x.get("id") is None:
+                    x["id"] = rng.choice(dir_ids) if (x.pop("want") == "dir" and dir_ids) else len(stat_idx) + 5
+                    x.pop("want", None)
             script.append({"t": "STAT"})
             r = rng.random()
             dst = []
